@@ -172,6 +172,17 @@ func c16BGVCt(c *Ctx, set c16BGVSet, keys c14Keys, lvl int, scale uint64) (coeff
 
 // c16T: the stored words of a polynomial of R_t (RingQ2T may leave values in [t, 2t): the basis
 // extension it uses returns unreduced residues); c16TC: reduced modulo t.
+// c16BGVEmbed: NTT(RingT2Q(level, scaleUp, m)) — the mask / share as it is added to a public share.
+func c16BGVEmbed(set c16BGVSet, lvl int, m []uint64) ring.Poly {
+	pT := set.bp.RingT().NewPoly()
+	copy(pT.Coeffs[0], m)
+	r := set.params.RingQ().AtLevel(lvl)
+	pQ := r.NewPoly()
+	set.enc.RingT2Q(lvl, true, pT, pQ)
+	r.NTT(pQ, pQ)
+	return pQ
+}
+
 func c16T(p ring.Poly) []uint64 { return append([]uint64(nil), p.Coeffs[0]...) }
 
 func c16TC(p ring.Poly, t uint64) []uint64 {
@@ -201,9 +212,11 @@ func c16BGVSharing(c *Ctx, set c16BGVSet, n, lvl int, sigma float64) {
 		mask               *ring.UniformSampler
 	}
 	twins := make([]tw, n)
+	copiedAll := make([]bool, n)
 	for i := range e2s {
 		mark := RandMark()
 		copied := i > 0 && c.rng.Intn(2) == 0
+		copiedAll[i] = copied
 		var err error
 		if !copied {
 			if e2s[i], err = mpbgv.NewEncToShareProtocol(set.bp, flood); err != nil {
@@ -240,9 +253,10 @@ func c16BGVSharing(c *Ctx, set c16BGVSet, n, lvl int, sigma float64) {
 		sec[i] = mpbgv.NewAdditiveShare(set.bp)
 		e2s[i].GenShare(keys.sk[i], ct, &sec[i], &pub[i])
 		e := c16SampleSigned(params, twins[i].e2sNoise, lvl, false)
-		c16Record(fmt.Sprintf("bgv_e2s sigma=%g", sigma), e)
 		m := ringT.NewPoly()
 		twins[i].mask.Read(m)
+		c16Record(fmt.Sprintf("bgv_e2s copy=%t sigma=%g", copiedAll[i], sigma),
+			c16Residual(params, lvl, true, pub[i].Value, []c16Term{{ct.Value[1], keys.sk[i], 1}}, nil, []ring.Poly{c16BGVEmbed(set, lvl, c16T(sec[i].Value))}))
 		if !slices.Equal(c16T(m), c16T(sec[i].Value)) {
 			panic("c16: twin mask differs from the protocol's secret share")
 		}
@@ -310,7 +324,8 @@ func c16BGVSharing(c *Ctx, set c16BGVSet, n, lvl int, sigma float64) {
 				panic(err)
 			}
 			e := c16SampleSigned(params, twins[i].s2eNoise, lout, false)
-			c16Record(fmt.Sprintf("bgv_s2e sigma=%g", sigma), e)
+			c16Record(fmt.Sprintf("bgv_s2e copy=%t sigma=%g", copiedAll[i], sigma),
+				c16Residual(params, lout, true, sh[i].Value, []c16Term{{crp.Value, keys.sk[i], -1}}, []ring.Poly{c16BGVEmbed(set, lout, c16T(final[i].Value))}, nil))
 			shRows[i] = Mat(c16QRows(params, sh[i].Value, lout, true))
 			c.Emit(fmt.Sprintf("bgv_s2e %s %s %s %s %s", hdrO, a, IVec(keys.s[i]), IVec(e), Vec(c16T(final[i].Value))), shRows[i])
 			c.Count("bgv_s2e")
@@ -379,9 +394,11 @@ func c16BGVRefresh(c *Ctx, set c16BGVSet, n, lin, lout int, sigma float64, fn *c
 
 	protos := make([]mpbgv.MaskedTransformProtocol, n)
 	twins := make([]c16BGVTwin, n)
+	copiedAll := make([]bool, n)
 	for i := range protos {
 		mark := RandMark()
 		copied := i > 0 && c.rng.Intn(2) == 0
+		copiedAll[i] = copied
 		if !copied {
 			var err error
 			if protos[i], err = mpbgv.NewMaskedTransformProtocol(set.bp, set.bp, flood); err != nil {
@@ -410,8 +427,6 @@ func c16BGVRefresh(c *Ctx, set c16BGVSet, n, lin, lout int, sigma float64, fn *c
 		}
 		e1 := c16SampleSigned(params, twins[i].e2sNoise, lin, false)
 		e2 := c16SampleSigned(params, twins[i].s2eNoise, lout, false)
-		c16Record(fmt.Sprintf("bgv_refresh sigma=%g", sigma), e1)
-		c16Record(fmt.Sprintf("bgv_refresh sigma=%g", sigma), e2)
 		m := ringT.NewPoly()
 		twins[i].mask.Read(m)
 		mask := c16T(m)
@@ -419,6 +434,10 @@ func c16BGVRefresh(c *Ctx, set c16BGVSet, n, lin, lout int, sigma float64, fn *c
 		if fn != nil {
 			mask2 = fn.apply(set, mask, ct.Scale)
 		}
+		c16Record(fmt.Sprintf("bgv_refresh copy=%t sigma=%g", copiedAll[i], sigma),
+			c16Residual(params, lin, true, shares[i].EncToShareShare.Value, []c16Term{{ct.Value[1], keys.sk[i], 1}}, nil, []ring.Poly{c16BGVEmbed(set, lin, mask)}))
+		c16Record(fmt.Sprintf("bgv_refresh copy=%t sigma=%g", copiedAll[i], sigma),
+			c16Residual(params, lout, true, shares[i].ShareToEncShare.Value, []c16Term{{crp.Value, keys.sk[i], -1}}, []ring.Poly{c16BGVEmbed(set, lout, mask2)}, nil))
 		rowsE[i] = Mat(c16QRows(params, shares[i].EncToShareShare.Value, lin, true))
 		rowsS[i] = Mat(c16QRows(params, shares[i].ShareToEncShare.Value, lout, true))
 		c.Emit(fmt.Sprintf("bgv_e2s %s %s %s %s %s", hdrI, c1, IVec(keys.s[i]), IVec(e1), Vec(mask)), rowsE[i])
